@@ -53,6 +53,7 @@ var c10 struct {
 	boolAnswer bool     // what the next transfer() return value unpacks to
 	logAmounts []*big.Int
 	calls      int
+	paused     bool
 }
 
 func c10Pack(a abi.ABI, name string, args ...interface{}) ([]byte, error) {
@@ -128,6 +129,9 @@ func (c10EVM) ApplyMessage(ctx sdk.Context, msg core.Message, tracer vm.EVMLogge
 	}
 	from := msg.From()
 	c10.boolAnswer = true
+	if c10.paused && c10.method != "balanceOf" {
+		return failed, nil // an honest pausable token: every state-changing call reverts while paused
+	}
 	switch c10.method {
 	case "balanceOf":
 		c10.answer = new(big.Int).Set(c10Get(c10.args[0].(common.Address)))
@@ -258,6 +262,7 @@ func c10Setup(coinOrigin bool) *c10Env {
 	// an arbitrary fully backed state
 	c10.bal = map[common.Address]*big.Int{}
 	c10.calls = 0
+	c10.paused = false
 	userTokens := zz.AnyBigAmount("tokens.user", 100)
 	otherTokens := zz.AnyBigAmount("tokens.other", 100)
 	c10.bal[c10User], c10.bal[c10Other] = userTokens, otherTokens
